@@ -1360,21 +1360,21 @@ func marshalDate(info TypeInfo, value interface{}) ([]byte, error) {
 		return nil, nil
 	case int64:
 		timestamp = v
-		x := timestamp/millisecondsInADay + int64(1<<31)
+		x := floorDiv(timestamp, millisecondsInADay) + int64(1<<31)
 		return encInt(int32(x)), nil
 	case time.Time:
 		if v.IsZero() {
 			return []byte{}, nil
 		}
 		timestamp = int64(v.UTC().Unix()*1e3) + int64(v.UTC().Nanosecond()/1e6)
-		x := timestamp/millisecondsInADay + int64(1<<31)
+		x := floorDiv(timestamp, millisecondsInADay) + int64(1<<31)
 		return encInt(int32(x)), nil
 	case *time.Time:
 		if v.IsZero() {
 			return []byte{}, nil
 		}
 		timestamp = int64(v.UTC().Unix()*1e3) + int64(v.UTC().Nanosecond()/1e6)
-		x := timestamp/millisecondsInADay + int64(1<<31)
+		x := floorDiv(timestamp, millisecondsInADay) + int64(1<<31)
 		return encInt(int32(x)), nil
 	case string:
 		if v == "" {
@@ -1385,7 +1385,7 @@ func marshalDate(info TypeInfo, value interface{}) ([]byte, error) {
 			return nil, marshalErrorf("can not marshal %T into %s, date layout must be '2006-01-02'", value, info)
 		}
 		timestamp = int64(t.UTC().Unix()*1e3) + int64(t.UTC().Nanosecond()/1e6)
-		x := timestamp/millisecondsInADay + int64(1<<31)
+		x := floorDiv(timestamp, millisecondsInADay) + int64(1<<31)
 		return encInt(int32(x)), nil
 	}
 
@@ -1393,6 +1393,16 @@ func marshalDate(info TypeInfo, value interface{}) ([]byte, error) {
 		return nil, nil
 	}
 	return nil, marshalErrorf("can not marshal %T into %s", value, info)
+}
+
+// floorDiv divides rounding towards negative infinity, so that instants
+// before the epoch are counted into the day they belong to.
+func floorDiv(a, b int64) int64 {
+	q := a / b
+	if a%b < 0 {
+		q--
+	}
+	return q
 }
 
 func unmarshalDate(info TypeInfo, data []byte, value interface{}) error {
